@@ -165,6 +165,18 @@ pub fn g_timeout(ch: &mut Choices) -> (v2::ReplicaTimeout, bool) {
 }
 
 pub fn g_timeout_qc(ch: &mut Choices) -> (v2::TimeoutQC, bool) {
+    let (groups, view, signature, s) = g_timeout_qc_parts(ch);
+    // every insertion order of the same groups gives the same value; pick one
+    let order = ch.perm(groups.len());
+    let mut map = std::collections::BTreeMap::new();
+    for i in order {
+        map.insert(groups[i].0.clone(), groups[i].1.clone());
+    }
+    (v2::TimeoutQC { view, map, signature }, s)
+}
+
+/// The parts of a timeout certificate: vote groups with pairwise different votes (by `==`), view, signature.
+pub fn g_timeout_qc_parts(ch: &mut Choices) -> (Vec<(v2::ReplicaTimeout, v2::Signers)>, v2::View, validator::AggregateSignature, bool) {
     let k = ch.below(5);
     let mut groups = vec![];
     let mut s = false;
@@ -174,13 +186,71 @@ pub fn g_timeout_qc(ch: &mut Choices) -> (v2::TimeoutQC, bool) {
         s |= sp | sp2;
         groups.push((m, v2::Signers(bv)));
     }
-    // every insertion order of the same groups gives the same value; pick one
-    let order = ch.perm(groups.len());
-    let mut map = std::collections::BTreeMap::new();
-    for i in order {
-        map.insert(groups[i].0.clone(), groups[i].1.clone());
+    // twins: a group whose vote differs from another group's vote in exactly one leaf (the map's ordering has to
+    // tell them apart, whichever leaf it is)
+    if !groups.is_empty() && ch.chance(1, 2) {
+        let mut m: v2::ReplicaTimeout = ch.pick(&groups).0;
+        if m.high_qc.is_none() && ch.chance(2, 3) {
+            m.high_qc = Some(g_commit_qc(ch).0);
+            m.high_vote.get_or_insert_with(|| g_commit(ch));
+        }
+        let mut t = m.clone();
+        match ch.below(8) {
+            0 => t.view.number = validator::ViewNumber(t.view.number.0.wrapping_add(1)),
+            1 => t.view.epoch = validator::EpochNumber(t.view.epoch.0.wrapping_add(1)),
+            2 => match t.high_vote.as_mut() {
+                Some(v) => v.proposal.number = validator::BlockNumber(v.proposal.number.0.wrapping_add(1)),
+                None => t.high_vote = Some(g_commit(ch)),
+            },
+            3 => match t.high_vote.as_mut() {
+                Some(v) => v.proposal.payload = validator::Payload(vec![9, 9, 9, ch.raw() as u8]).hash(),
+                None => t.high_vote = Some(g_commit(ch)),
+            },
+            4 => match t.high_qc.as_mut() {
+                Some(q) => q.message.view.number = validator::ViewNumber(q.message.view.number.0.wrapping_add(1)),
+                None => t.high_qc = Some(g_commit_qc(ch).0),
+            },
+            5 => match t.high_qc.as_mut() {
+                Some(q) => {
+                    // another aggregate for the same message and signers
+                    let mut a = q.signature.clone();
+                    a.add(&ch.pick(sig_pool()));
+                    q.signature = a;
+                }
+                None => t.high_qc = Some(g_commit_qc(ch).0),
+            },
+            6 => match t.high_qc.as_mut() {
+                Some(q) => {
+                    let n = q.signers.0.len();
+                    if n == 0 {
+                        q.signers.0.push(true);
+                    } else {
+                        let i = ch.below(n);
+                        let b = q.signers.0[i];
+                        q.signers.0.set(i, !b);
+                    }
+                }
+                None => t.high_qc = Some(g_commit_qc(ch).0),
+            },
+            _ => match t.high_qc.as_mut() {
+                Some(q) => q.message.proposal.payload = validator::Payload(vec![7, 7, ch.raw() as u8]).hash(),
+                None => t.high_qc = Some(g_commit_qc(ch).0),
+            },
+        }
+        if t != m {
+            groups.push((m, v2::Signers(g_bitvec(ch).0)));
+            groups.push((t, v2::Signers(g_bitvec(ch).0)));
+            s = true;
+        }
     }
-    (v2::TimeoutQC { view: g_view(ch), map, signature: g_agg(ch) }, s || k >= 2)
+    let mut uniq: Vec<(v2::ReplicaTimeout, v2::Signers)> = vec![];
+    for g in groups {
+        if !uniq.iter().any(|u| u.0 == g.0) {
+            uniq.push(g);
+        }
+    }
+    let special = s || uniq.len() >= 2;
+    (uniq, g_view(ch), g_agg(ch), special)
 }
 
 pub fn g_just(ch: &mut Choices) -> (v2::ProposalJustification, bool) {
